@@ -84,6 +84,12 @@ func (a *Auth) checkBasicAuth(remoteAddr, user, pass string) (ok bool) {
 		return false
 	}
 
+	// Passwords are evaluated one at a time anyway, see [Auth.findUser].  Do
+	// not let the attempts that arrive while one is being evaluated pass the
+	// check all together.
+	a.attemptLock.Lock()
+	defer a.attemptLock.Unlock()
+
 	if left := rateLimiter.check(remoteIP); left > 0 {
 		log.Info("auth: basic authorization from ip %s is blocked for %s", remoteIP, left)
 
@@ -185,6 +191,9 @@ func handleLogin(w http.ResponseWriter, r *http.Request) {
 
 		return
 	}
+
+	globalContext.auth.attemptLock.Lock()
+	defer globalContext.auth.attemptLock.Unlock()
 
 	if rateLimiter := globalContext.auth.rateLimiter; rateLimiter != nil {
 		if left := rateLimiter.check(remoteIP); left > 0 {
